@@ -165,6 +165,21 @@ func (c *Ctl) Events() []Event {
 	return append([]Event(nil), c.events...)
 }
 
+// CountEv counts the logged events with one of the given names.
+func (c *Ctl) CountEv(names ...string) int {
+	c.mu.Lock()
+	defer c.mu.Unlock()
+	n := 0
+	for _, e := range c.events {
+		for _, nm := range names {
+			if e["ev"] == nm {
+				n++
+			}
+		}
+	}
+	return n
+}
+
 func (c *Ctl) NumEvents() int {
 	c.mu.Lock()
 	defer c.mu.Unlock()
